@@ -660,6 +660,11 @@ def id_programs(n, tier):
     # stability: a thread asks again while a client holds a locked (strong) reference to its heartbeat
     out.append('P id%d_pinned cap=%d hash=0,0 | ID HB:1 BAR:1:2 BAR:2:2 ID BAR:3:2 BAR:4:2 EXP:1 ID | '
                'BAR:1:2 HBL:1 BAR:2:2 %sBAR:3:2 HBU:1 BAR:4:2 EXP:1%s' % (n, n, 'ID ' if n > 2 else '', final))
+    if n == 1:
+        # a client pins the heartbeat of a thread beyond its exit, the ID is reused, the pin is dropped while the new owner runs,
+        # a further thread asks: it must wait for the owner to exit
+        out.append('P id1_pin_reuse cap=1 hash=0,0,0,0 | ID HB:1 | WAITHB:1 HBL:1 BAR:1:2 BAR:2:2 HBU:1 BAR:3:3 | '
+                   'BAR:1:2 ID BAR:2:2 BAR:3:3 ID EXP:1 | BAR:3:3 ID%s' % final)
     return out
 
 
